@@ -443,6 +443,7 @@ func (ft *FuncTr) applyContract(st *State, at *Term, in ssa.Instruction, name st
 		}
 		if !am.whole && len(am.locs) == 0 {
 			ft.h.noteFreshFrame(before, after, oldNext)
+			ft.elemsFreshFrame(at, before, after, oldNext)
 		} else if !am.whole {
 			if c := ft.locsEmptyCond(am.locs); c.S != "false" {
 				ft.h.noteFreshFrameCond(before, after, oldNext, c)
@@ -693,6 +694,8 @@ func (ft *FuncTr) appendBuiltin(st *State, at *Term, in ssa.Instruction, c *ssa.
 				addSet = Or(ds...)
 			}
 			ft.assume(at, Forall([]Bound{{"ax", srt.V}}, Eq(er, Or(Select(ft.h.elemsOf(before, s, srt.V), xv), addSet)), []*Term{er}))
+			// the operand keeps its element set (an append in place writes beyond len(s), a growing one writes a new array)
+			ft.assume(at, Eq(ft.h.elemsOf(after, s, srt.V), ft.h.elemsOf(before, s, srt.V)))
 		}
 		ft.h.setArr(st, an, after)
 		// a growing append writes only the array it allocates; an append in place writes its operand's array: when
